@@ -181,4 +181,4 @@ def main():
 
 
 if __name__ == '__main__':
-    main()
+    guarded(main)
